@@ -62,10 +62,55 @@ func readLines(path string) ([]string, error) {
 	return out, sc.Err()
 }
 
+// c16Pollute uses the library the way an application would between two looks
+// at the documented constants: recipes that combine class flags with custom
+// strings, exclusions of every kind, separator functions, word lists.
+func c16Pollute() {
+	rs := []spg.CharRecipe{
+		{Length: 6, Allow: spg.All, Exclude: spg.Ambiguous, ExcludeChars: "@*89"},
+		{Length: 4, Allow: spg.Digits | spg.Symbols, Exclude: spg.Ambiguous | spg.Digits},
+		{Length: 5, Allow: spg.Letters, Require: spg.Digits | spg.Ambiguous, ExcludeChars: "0O"},
+		{Length: 3, AllowChars: "abc!", RequireSets: []string{"a!", "0"}, Exclude: spg.Symbols},
+		{Length: 8, Allow: spg.All, Require: spg.All, Exclude: spg.Ambiguous, ExcludeChars: "aeiou"},
+	}
+	for _, r := range rs {
+		func() {
+			defer func() { recover() }()
+			install(policyTape(func(b uint32, i int) uint32 { return uint32(i * 3) }))
+			r.Generate()
+			_ = r.Entropy()
+			_ = r.Alphabet()
+			_ = r.SuccessProbability()
+			p := spg.NewCharRecipe(9)
+			p.ExcludeChars = "xyz27"
+			p.Exclude |= spg.Symbols
+			p.Generate()
+			sf := spg.NewSFFunction(r)
+			sf()
+		}()
+	}
+	func() {
+		defer func() { recover() }()
+		wl, _ := spg.NewWordList([]string{"ab", "Ab", "cd", "4"})
+		w := spg.NewWLRecipe(3, wl)
+		w.Capitalize, w.SeparatorFunc = spg.CSRandom, spg.SFDigitsNoAmbiguous2
+		install(policyTape(func(b uint32, i int) uint32 { return uint32(i + 1) }))
+		w.Generate()
+		_ = w.Entropy()
+	}()
+	install(tape.New(&tape.Script{}))
+}
+
 func c16Run(c *core.Ctx) {
+	c16Pass(c, "")
+	c16Pollute()
+	c16Pass(c, " (after other recipes were used)")
+}
+
+func c16Pass(c *core.Ctx, when string) {
 	install(tape.New(&tape.Script{}))
 	fail := func(key, msg string) {
-		c.Violation(key, msg, map[string]interface{}{"item": key})
+		c.Violation(key+when, msg+when, map[string]interface{}{"item": key})
 	}
 	item := func() { c.Count("executions", 1); c.Count("items_checked", 1) }
 	if c.Shard == 0 {
@@ -322,7 +367,7 @@ func init() {
 	Register(&core.Check{
 		ID:    "C16",
 		Level: "exploration",
-		Rule: "the finite configuration space is enumerated completely: each class flag and named combination (Alphabet() of the recipe allowing exactly it), constructor defaults for several lengths, scheme/token/budget constants, the complete cell of draws of each of the 7 separator presets (every value, exact probability, entropy) - alone and after each other preset has been used in the same process (42 ordered pairs) -, constructors called again after an earlier result was modified, and every entry of both shipped lists against its data file; documented values are transcribed into the checker; " +
+		Rule: "the finite configuration space is enumerated completely: each class flag and named combination (Alphabet() of the recipe allowing exactly it), constructor defaults for several lengths, scheme/token/budget constants, the complete cell of draws of each of the 7 separator presets (every value, exact probability, entropy) - alone and after each other preset has been used in the same process (42 ordered pairs) -, constructors called again after an earlier result was modified, and every entry of both shipped lists against its data file; documented values are transcribed into the checker; the whole pass is repeated after a battery of other recipes has been used in the same process; " +
 			"non-trivial = distinct (item, observed value) pairs",
 		Assume:    []string{"the data files under /repo/testdata are the reference for the shipped lists"},
 		Run:       c16Run,
